@@ -71,6 +71,293 @@ impl<'de> serde::Deserialize<'de> for BytesOnly {
     }
 }
 
+/// a hand-scripted transaction controller (raw frames) against the crate's own listener; adapted from the
+/// demonstration stored with seeded change C18-3
+mod txc {
+    use std::time::Duration;
+
+    use bytes::{BufMut, BytesMut};
+    use fe2o3_amqp::{
+        acceptor::{ConnectionAcceptor, LinkAcceptor, LinkEndpoint, SessionAcceptor},
+        frames::amqp::{Frame, FrameBody, FrameDecoder},
+        transaction::coordinator::ControlLinkAcceptor,
+    };
+    use fe2o3_amqp_types::{
+        definitions::{Handle, ReceiverSettleMode, Role, SenderSettleMode},
+        messaging::{AmqpValue, DeliveryState, Outcome, Source, Target},
+        performatives::{Attach, Begin, Disposition, Open, Transfer},
+        transaction::{Coordinator, Declare, Discharge, TransactionId, TransactionalState},
+    };
+    use serde::Serialize;
+    use tokio::{
+        io::{AsyncReadExt, AsyncWriteExt, DuplexStream},
+        sync::mpsc,
+        time::timeout,
+    };
+    use tokio_util::codec::Decoder;
+
+    const STEP: Duration = Duration::from_secs(5);
+
+    /// A hand-scripted AMQP peer: writes and reads raw frames on channel 0.
+    struct Peer {
+        io: DuplexStream,
+    }
+
+    impl Peer {
+        async fn send<P: Serialize>(&mut self, performative: &P, payload: &[u8]) {
+            let body = serde_amqp::to_vec(performative).unwrap();
+            let mut buf = BytesMut::new();
+            buf.put_u32((8 + body.len() + payload.len()) as u32);
+            buf.put_u8(2); // doff
+            buf.put_u8(0); // AMQP frame
+            buf.put_u16(0); // channel
+            buf.put_slice(&body);
+            buf.put_slice(payload);
+            self.io.write_all(&buf).await.unwrap();
+            self.io.flush().await.unwrap();
+        }
+
+        async fn recv(&mut self) -> FrameBody {
+            let size = self.io.read_u32().await.expect("peer closed the stream") as usize;
+            let mut rest = vec![0u8; size - 4];
+            self.io.read_exact(&mut rest).await.unwrap();
+            let mut src = BytesMut::from(&rest[..]);
+            let mut dec = FrameDecoder {};
+            let frame: Frame = dec.decode(&mut src).unwrap().unwrap();
+            frame.body
+        }
+
+        /// Reads frames until `pick` returns something; everything else is skipped.
+        async fn until<T>(&mut self, what: &str, mut pick: impl FnMut(FrameBody) -> Option<T>) -> T {
+            let fut = async {
+                loop {
+                    let body = self.recv().await;
+                    match &body {
+                        FrameBody::End(end) => panic!("waiting for {what}: session ended: {end:?}"),
+                        FrameBody::Close(close) => panic!("waiting for {what}: closed: {close:?}"),
+                        FrameBody::Detach(detach) => panic!("waiting for {what}: detached: {detach:?}"),
+                        _ => {}
+                    }
+                    if let Some(found) = pick(body) {
+                        return found;
+                    }
+                }
+            };
+            timeout(STEP, fut)
+                .await
+                .unwrap_or_else(|_| panic!("timed out waiting for {what}"))
+        }
+
+        /// Attaches a sending link and waits for the attach echo and for link credit.
+        async fn attach_sender(&mut self, name: &str, handle: u32, coordinator: bool) {
+            let target = match coordinator {
+                true => Coordinator::default().into(),
+                false => Target::builder().address("q").build().into(),
+            };
+            let attach = Attach {
+                name: name.to_string(),
+                handle: Handle(handle),
+                role: Role::Sender,
+                snd_settle_mode: SenderSettleMode::Unsettled,
+                rcv_settle_mode: ReceiverSettleMode::First,
+                source: Some(Box::new(Source::default())),
+                target: Some(Box::new(target)),
+                unsettled: None,
+                incomplete_unsettled: false,
+                initial_delivery_count: Some(0),
+                max_message_size: None,
+                offered_capabilities: None,
+                desired_capabilities: None,
+                properties: None,
+            };
+            self.send(&attach, &[]).await;
+            let name = name.to_string();
+            let local = self
+                .until("attach echo", |body| match body {
+                    FrameBody::Attach(attach) if attach.name == name => Some(attach.handle),
+                    _ => None,
+                })
+                .await;
+            self.until("link credit", |body| match body {
+                FrameBody::Flow(flow)
+                    if flow.handle == Some(local.clone()) && flow.link_credit.unwrap_or(0) > 0 =>
+                {
+                    Some(())
+                }
+                _ => None,
+            })
+            .await;
+        }
+
+        /// Sends one single-frame unsettled delivery and returns the state of the disposition
+        /// that covers it.
+        async fn deliver<B: Serialize>(
+            &mut self,
+            handle: u32,
+            delivery_id: u32,
+            state: Option<DeliveryState>,
+            body: B,
+        ) -> Option<DeliveryState> {
+            let transfer = Transfer {
+                handle: Handle(handle),
+                delivery_id: Some(delivery_id),
+                delivery_tag: Some(delivery_id.to_be_bytes().to_vec().into()),
+                message_format: Some(0),
+                settled: Some(false),
+                more: false,
+                rcv_settle_mode: None,
+                state,
+                resume: false,
+                aborted: false,
+                batchable: false,
+            };
+            // A message that consists of a single amqp-value body section
+            let payload = serde_amqp::to_vec(&AmqpValue(body)).unwrap();
+            self.send(&transfer, &payload).await;
+            self.until("disposition", |body| match body {
+                FrameBody::Disposition(Disposition {
+                    role: Role::Receiver,
+                    first,
+                    last,
+                    state,
+                    ..
+                }) if first <= delivery_id && delivery_id <= last.unwrap_or(first) => Some(state),
+                _ => None,
+            })
+            .await
+        }
+    }
+
+    /// The resource side: the crate's listener.  Every message the application receives on the
+    /// accepted link is forwarded to the returned channel.
+    fn spawn_listener(server_io: DuplexStream) -> mpsc::UnboundedReceiver<String> {
+        let (tx, rx) = mpsc::unbounded_channel();
+        tokio::spawn(async move {
+            let connection_acceptor = ConnectionAcceptor::builder()
+                .container_id("listener")
+                .build();
+            let mut connection = connection_acceptor.accept(server_io).await.unwrap();
+            let session_acceptor = SessionAcceptor::builder()
+                .control_link_acceptor(ControlLinkAcceptor::default())
+                .build();
+            let mut session = session_acceptor.accept(&mut connection).await.unwrap();
+            let link_acceptor = LinkAcceptor::builder().build();
+            let mut receiver = match link_acceptor.accept(&mut session).await.unwrap() {
+                LinkEndpoint::Receiver(receiver) => receiver,
+                LinkEndpoint::Sender(_) => panic!("expected a receiving link"),
+            };
+            while let Ok(delivery) = receiver.recv::<String>().await {
+                let _ = receiver.accept(&delivery).await;
+                if tx.send(delivery.body().clone()).is_err() {
+                    break;
+                }
+            }
+            // keep the session and the connection up until the test is over
+            tx.closed().await;
+            drop(session);
+            drop(connection);
+        });
+        rx
+    }
+
+    /// declare; post "first", "second"; discharge with the given `fail` field.  Returns what the
+    /// listener's application has received (a) before the discharge and (b) after it.
+    pub async fn scenario(fail: Option<bool>) -> (Vec<String>, Vec<String>) {
+        let (client_io, server_io) = tokio::io::duplex(64 * 1024);
+        let mut received = spawn_listener(server_io);
+        let mut peer = Peer { io: client_io };
+
+        // protocol header, open, begin
+        peer.io.write_all(b"AMQP\x00\x01\x00\x00").await.unwrap();
+        let mut header = [0u8; 8];
+        timeout(STEP, peer.io.read_exact(&mut header))
+            .await
+            .unwrap()
+            .unwrap();
+        assert_eq!(&header, b"AMQP\x00\x01\x00\x00");
+        let open = Open {
+            container_id: "scripted-controller".to_string(),
+            hostname: None,
+            max_frame_size: Default::default(),
+            channel_max: Default::default(),
+            idle_time_out: None,
+            outgoing_locales: None,
+            incoming_locales: None,
+            offered_capabilities: None,
+            desired_capabilities: None,
+            properties: None,
+        };
+        peer.send(&open, &[]).await;
+        peer.until("open", |body| matches!(body, FrameBody::Open(_)).then_some(()))
+            .await;
+        let begin = Begin {
+            remote_channel: None,
+            next_outgoing_id: 0,
+            incoming_window: 2048,
+            outgoing_window: 2048,
+            handle_max: Default::default(),
+            offered_capabilities: None,
+            desired_capabilities: None,
+            properties: None,
+        };
+        peer.send(&begin, &[]).await;
+        peer.until("begin", |body| matches!(body, FrameBody::Begin(_)).then_some(()))
+            .await;
+
+        // control link (handle 0) and declare
+        peer.attach_sender("control-link", 0, true).await;
+        let txn_id: TransactionId = match peer
+            .deliver(0, 0, None, Declare { global_id: None })
+            .await
+        {
+            Some(DeliveryState::Declared(declared)) => declared.txn_id,
+            other => panic!("declare was answered with {other:?}"),
+        };
+
+        // posting link (handle 1) and two transactional posts
+        peer.attach_sender("posting-link", 1, false).await;
+        for (delivery_id, text) in [(1u32, "first"), (2u32, "second")] {
+            let state = DeliveryState::TransactionalState(TransactionalState {
+                txn_id: txn_id.clone(),
+                outcome: None,
+            });
+            match peer
+                .deliver(1, delivery_id, Some(state), text.to_string())
+                .await
+            {
+                Some(DeliveryState::TransactionalState(TransactionalState {
+                    txn_id: echoed,
+                    outcome: Some(Outcome::Accepted(_)),
+                })) => assert_eq!(echoed, txn_id),
+                other => panic!("post {text:?} was answered with {other:?}"),
+            }
+        }
+
+        // nothing may be visible before the discharge
+        let mut before = Vec::new();
+        while let Ok(Some(text)) = timeout(Duration::from_millis(200), received.recv()).await {
+            before.push(text);
+        }
+
+        // discharge; the coordinator has to report success
+        let discharge = Discharge {
+            txn_id: txn_id.clone(),
+            fail,
+        };
+        match peer.deliver(0, 3, None, discharge).await {
+            Some(DeliveryState::Accepted(_)) => {}
+            other => panic!("discharge(fail = {fail:?}) was answered with {other:?}"),
+        }
+
+        let mut after = Vec::new();
+        while let Ok(Some(text)) = timeout(Duration::from_millis(300), received.recv()).await {
+            after.push(text);
+        }
+        (before, after)
+    }
+
+}
+
 #[cfg(not(kani))]
 mod sp {
     //! A scripted AMQP peer for native replays: a real client (public API over an in-memory duplex) talks to
@@ -2278,6 +2565,17 @@ fn main() {
                             let left: u32 = attaches.iter().skip(1).filter(|l| l.contains(":unsettled") && l.contains("+9+")).count() as u32;
                             let got = client.unwrap_or_else(|e| e);
                             format!("{{\"client\":{:?},\"next_delivery_intact\":{},\"resumed\":{},\"left_unsettled\":{},\"log\":{}}}", got, got == "hello", attaches.len() > 1, left, sp::json_list(&log))
+                        }
+                        // txn_discharge <fail: 0 = false, 1 = true, 2 = unset>: a scripted controller declares, posts "first" and
+                        //   "second", and discharges with the given fail field against the crate's own listener. fail=true: nothing
+                        //   is ever delivered; otherwise (also unset) both posts are delivered after the discharge, in order.
+                        "txn_discharge" => {
+                            let _ = (client_io, peer_io);
+                            let f = arg.first().copied().unwrap_or(0);
+                            let fail = match f { 0 => Some(false), 1 => Some(true), _ => None };
+                            let (before, after) = txc::scenario(fail).await;
+                            let want: Vec<String> = if f == 1 { vec![] } else { vec!["first".to_string(), "second".to_string()] };
+                            format!("{{\"before\":{:?},\"after\":{:?},\"as_expected\":{}}}", before, after, before.is_empty() && after == want)
                         }
                         // link_split <pieces>: the peer's attach carries max-message-size 16; the client sends ONE message
                         //   whose payload is cut into <pieces> transfers by the link. All frames of the delivery must carry
